@@ -349,6 +349,16 @@ Definition or_else (o : option val) (d : option val) : option val :=
 
 Definition setting (s : string) (c : config) : option val := sm_get s (c_scalars c).
 
+(** What [config_loaded_paths] should list: the consulted positions, in load order, whose
+    file is a non-empty mapping — one entry per POSITION, so a path consulted twice (a
+    directory repeated in $XDG_CONFIG_DIRS, $XDG_CONFIG_HOME equal to a common directory)
+    is loaded twice and listed twice. *)
+Definition is_merged (v : val) : bool :=
+  match v with VDict (_ :: _) => true | _ => false end.
+
+Definition loaded_of (lo_to_hi : list (string * val)) : list string :=
+  map fst (filter (fun pv => is_merged (snd pv)) lo_to_hi).
+
 (** A payload every clause of the property accepts: no file / empty file, or a mapping
     whose keys are all known settings and whose vars / shortcuts, when given, are mappings. *)
 Definition dict_prop_ok (o : option val) : bool :=
